@@ -26,6 +26,8 @@ GATEDEF = "jaqalpaq.core.gatedef.GateDefinition"
 
 def run(ctx, rep):
     ix, T = ctx.ix, ctx.typer
+    from .common import check_falsy_zero
+    check_falsy_zero(ctx, rep, "C13.7", ['jaqalpaq.core.algorithm.used_qubit_visitor'], floor_positions=3)
     ix.cls(UQ)
     ix.cls(DISC)
     family = [UQ] + [c for c in ix.subclasses(UQ) if not c.startswith("jaqalpaq.emulator.pygsti")]
@@ -114,14 +116,35 @@ def run(ctx, rep):
             ids, _ = fl.depends(e)
             data = any(id(m) in ids and isinstance(m, ast.Attribute) and m.attr == "parallel" and isinstance(m.value, ast.Name) and m.value.id == blk for m in walk_no_nested(h.node))
             if data:
-                verdicts.append("data")
+                # exactness: the flag is block.parallel itself, possibly and-ed with the class's validate_parallel switch
+                ee = e
+                hops = 0
+                while isinstance(ee, ast.Name) and hops < 5:
+                    defs = [st.value for st in iter_stmts(h.body) if isinstance(st, ast.Assign) and any(isinstance(t, ast.Name) and t.id == ee.id for t in st.targets)]
+                    if len(defs) != 1:
+                        break
+                    ee = defs[0]
+                    hops += 1
+                atoms = ee.values if isinstance(ee, ast.BoolOp) and isinstance(ee.op, ast.And) else [ee]
+                extra = [a for a in atoms if not (
+                    (isinstance(a, ast.Attribute) and a.attr == "parallel" and isinstance(a.value, ast.Name) and a.value.id == blk)
+                    or (isinstance(a, ast.Attribute) and a.attr == "validate_parallel")
+                    or (isinstance(a, ast.Call) and isinstance(a.func, ast.Name) and a.func.id == "bool" and a.args and isinstance(a.args[0], ast.Attribute) and a.args[0].attr == "parallel")
+                )]
+                if isinstance(ee, ast.BoolOp) and isinstance(ee.op, ast.And) and extra:
+                    verdicts.append("weakened:" + ast.unparse(extra[0]))
+                else:
+                    verdicts.append("data")
             elif isinstance(e, ast.Constant) and e.value is True and ctrl_par:
                 verdicts.append("control")
             elif isinstance(e, ast.Constant) and e.value is True:
                 verdicts.append("always")
             else:
                 verdicts.append("other")
-        if vis == DISC:
+        weak = [v for v in verdicts if v.startswith("weakened:")]
+        if weak:
+            rep.violation("C13.2", cons, f"the disjointness flag is `block.parallel and {weak[0][9:]}`: for parallel blocks where `{weak[0][9:]}` is false, overlapping branches are accepted", h.loc())
+        elif vis == DISC:
             if any(v in ("data", "control") for v in verdicts) and "always" not in verdicts:
                 rep.ok("C13.2", cons, "disjoint= follows block.parallel", h.loc())
             elif "always" in verdicts:
@@ -246,6 +269,29 @@ def run(ctx, rep):
                     ids, roots = fl.depends(v)
                     if any(isinstance(m, ast.Attribute) and m.attr == "parameters" for r in roots for m in ast.walk(r)):
                         merged = merged or n
+        # the scope in which call arguments are resolved is the caller's: it is not written while arguments are bound
+        mutated = set()
+        for n in walk_no_nested(gh.node):
+            if isinstance(n, ast.Subscript) and isinstance(n.ctx, (ast.Store, ast.Del)) and isinstance(n.value, ast.Name):
+                mutated.add(n.value.id)
+            if isinstance(n, ast.Call) and isinstance(n.func, ast.Attribute) and n.func.attr in ("update", "setdefault", "pop", "clear", "popitem") and isinstance(n.func.value, ast.Name):
+                mutated.add(n.func.value.id)
+        cons_ro = construct_of(gh, "caller-scope-read-only")
+        bad_ro = None
+        n_res = 0
+        for n in walk_no_nested(gh.node):
+            if isinstance(n, ast.Call) and isinstance(n.func, ast.Attribute) and (n.func.attr.startswith("resolve") or n.func.attr.startswith("_resolve")):
+                cargs = list(n.args[1:2]) + [k.value for k in n.keywords if k.arg == "context"]
+                if n.func.attr == "resolve_value" or n.func.attr == "resolve_qubit":
+                    cargs = list(n.args[0:1]) + [k.value for k in n.keywords if k.arg == "context"]
+                for a in cargs:
+                    n_res += 1
+                    if isinstance(a, ast.Name) and a.id in mutated:
+                        bad_ro = (n, a)
+        if bad_ro is not None:
+            rep.violation("C13.6", cons_ro, f"`{ast.unparse(bad_ro[0])}` resolves a call argument in `{bad_ro[1].id}`, which is being filled with the callee's parameters in the same handler: an argument named like an earlier parameter of the callee resolves to that parameter's binding (`macro inner a b {{ Px b }}; macro outer b a {{ inner b a }}` reports the wrong qubit)", f"{gh.path}:{bad_ro[0].lineno}")
+        elif n_res:
+            rep.ok("C13.6", cons_ro, f"{n_res} resolution calls use a scope that is not written in the handler", gh.loc())
         if merged is None:
             rep.undecided("C13.6", cons, "no merged callee context found", gh.loc())
         else:
